@@ -22,6 +22,8 @@ def run(ctx):
             raise Broken("Gen_Stmt emitted nothing")
         for s in ([ctx.seed, ctx.seed + 1, ctx.seed + 2, ctx.seed + 3] if thorough else [ctx.seed, ctx.seed + 1]):   # odd seeds: adversarial argument strings
             ctx.run_replay("replay-stmt", ["-in", path, "-seed", str(s)], "replay-stmt", sigkeys=("kind",))
+        # arguments bound as Go integers, floats and booleans (rendered by the driver to the strings the data holds)
+        ctx.run_replay("replay-stmt", ["-in", path, "-seed", seed, "-dict", "numeric"], "replay-stmt-typed-arguments", sigkeys=("kind",))
         ctx.cov["exhaustive"] = True
     elif ctx.pid == "C12":
         ctx.cov["rule"] = ("RowsOf/ColsOf over the library result (UpdogStmt): one row per group, none for a grouped query without match, one count row otherwise; columns = "
@@ -56,6 +58,7 @@ def run(ctx):
         r = ctx.gen_to_file("Gen_Stmt", ctx.cfg_variant("Gen_Stmt.cfg", dict(Emit="TRUE", MaxArgs=2)), path, workers=2, label="gen-dsn+stmt")
         ctx.run_replay("replay-dsn", ["-in", path, "-seed", seed], "replay-dsn", sigkeys=("kind",))
         ctx.run_replay("replay-stmt", ["-in", path, "-seed", seed], "replay-stmt(rows of bound queries)", sigkeys=("kind",))
+        ctx.run_replay("replay-stmt", ["-in", path, "-seed", seed, "-dict", "numeric"], "replay-stmt-typed-arguments", sigkeys=("kind",))
         ctx.cov["exhaustive"] = True
     else:
         ctx.cov["rule"] = ("UpdogSQL: connection cache with reference counts, pool slots per sql.DB, file locks; 2 handles x 2 threads x 2 files, all interleavings up to MaxSteps: no use "
